@@ -50,6 +50,17 @@ def generate(tier, seed):
         tunit = rng.choice(['AU', 'AU', 'pc']) if kind == 'conv' else 'AU'
         runit = rng.choice(['table', 'table', 'pc', 'cm', 'km']) if kind == 'conv' else rng.choice(['bare', 'bare', 'AU', 'pc'])
         c = dict(kind=kind, aps=aps, val=val, req=req, tunit=tunit, runit=runit, below=below)
+        if kind == 'conv' and k % 6 == 1 and nap > 1:
+            # the request array in single precision or as whole numbers (the values are what the array holds); the table's largest
+            # aperture is neither a whole number nor a single-precision number
+            import numpy as np
+            c['tunit'] = c['runit'] = 'AU'
+            c['runit'] = 'table'
+            aps[-1] = aps[-1] * (1 + 2.0 ** -30) + 0.3
+            hi = aps[-1]
+            c['rdtype'] = rng.choice(['float32', 'int'])
+            c['req'] = [float(np.float32(x)) if c['rdtype'] == 'float32' else float(math.ceil(x)) for x in c['req']]
+            c['below'] = any(x < lo for x in c['req'])
         if kind in ('sed', 'var'):
             c['sunit'] = rng.choice(['AU', 'AU', 'pc', 'cm'])            # unit in which the SED stores its apertures
             c['both'] = nap > 1 and rng.random() < 0.5                  # the other interpolation method is called on the same SED object first
@@ -89,6 +100,8 @@ def impl(case):
                             apertures=None if len(aps) == 1 and case.get('noap') else (aps / LEN[case['tunit']]) * tu, flux=flux * u.mJy, error=flux * 0.25 * u.mJy)
         ru = tu if case['runit'] == 'table' else u.Unit(case['runit'])
         req = (np.array(case['req']) / LEN[str(ru)]) * ru
+        if case.get('rdtype'):
+            req = u.Quantity(np.array(case['req']).astype({'float32': np.float32, 'int': int}[case['rdtype']]), ru, dtype={'float32': np.float32, 'int': int}[case['rdtype']])
         r = c.interpolate(req)
         out = dict(flux=[[float(x) for x in row] for row in r.flux.to(u.mJy).value], error=[[float(x) for x in row] for row in r.error.to(u.mJy).value],
                    names=[str(x) for x in r.model_names], wav=float(r.central_wavelength.to(u.micron).value),
@@ -133,7 +146,8 @@ def impl(case):
     fa = np.array([case['fap'][i] for i in case['forder']])
     if case.get('fap_int'):
         fa = fa.astype(int)
-    fa0 = fa.copy()
+    elif case['runit'] != 'bare':       # the radii handed over as a quantity, in AU or another length unit
+        fa = (fa / LEN[case['runit']]) * u.Unit(case['runit'])
     r = s.interpolate_variable(fw, fa)
     r = r.value if hasattr(r, 'value') else r
     return dict(flux=[float(x) for x in np.asarray(r)])
